@@ -38,7 +38,7 @@ CLAIMED = {
         level="exploration",
         technique="deterministic simulation: the run-time-chosen internal qubit order is a seam (the scheduler returns identity / reversal / the real optimiser's answer / arbitrary permutations), plus register relabelling and crash+resume; run-vs-run oracle",
         design="7.3",
-        text="Seeded scenarios with distinguishable atoms (local targets, DMM, SLM, dark atoms, pi pulse on one atom, user initial state) are run under several internal orders, with the register re-inserted / relabelled, with non-permutable observables (safeguard) and interrupted by crash+resume; results must agree (2e-4) and list atoms in register order; the pi-pulse workload checks bit-string positions exactly.",
+        text="Seeded scenarios with distinguishable atoms (local targets, DMM, SLM, dark atoms, pi pulse on one atom, user initial state) are run under several internal orders, with the register re-inserted / relabelled, with non-permutable observables (safeguard) and interrupted by crash+resume; results must agree (2e-3 absolute, relative to |H| / |H|^2 for energies) and list atoms in register order; the pi-pulse workload checks bit-string positions exactly, every noiseless run checks its bit-string positions against its own occupations (exact binomial); 2-6 atoms plus 8-16 atom registers; second instances of per-atom observables under a tag_suffix.",
         note="tolerance calibrated on the repaired tree (max discrepancy reported in the evidence); weakly entangling workloads with truncation off so that TDVP's order-dependent error is far below the tolerance",
     ),
     "C14": dict(
@@ -52,21 +52,21 @@ CLAIMED = {
         level="exploration",
         technique="seeded-RNG seam (torch + random from the tape) with per-draw invariants on every seed and exact binomial acceptance against an independent Born-rule + bit-flip-channel model; no clock or fault involved (stated)",
         design="7.9",
-        text="Random MPS (qubits/qutrits), state vectors, density matrices and product states, 1..20000 shots, readout error rates in [0,1] incl. 0 and 1: total count, string format, impossible outcomes, bit positions (product states), and per-string exact two-sided binomial tests at a family-wise level of 1e-9 per invocation.",
+        text="Random MPS (qubits/qutrits), state vectors, density matrices and product states, 1..20000 shots, readout error rates in [0,1] incl. 0 and 1: total count, string format, impossible outcomes, bit positions (product states), and per-string exact two-sided binomial tests at a family-wise level of 1e-9 per invocation. Every fourth case is the BitStrings result of a backend run (emu-mps with a scheduler-chosen internal order, emu-sv, emu-sv Lindblad; readout errors from the config; other observables incl. EntanglementEntropy evaluated on the shared state before/after) tested against the Born distribution of the StateResult of the same scenario.",
         note="statistical acceptance at a fixed family-wise error rate; the Born model is a dense contraction independent of the sampling code",
     ),
     "C17": dict(
         level="exploration",
         technique="deterministic simulation of seeded jump schedules (one RNG stream per trajectory) with per-trajectory invariants and a finite-sample (empirical Bernstein) acceptance test of the trajectory mean against a dense Lindblad reference model",
         design="7.8",
-        text="16 (quick) / 64 (thorough) seeded cases covering every Lindblad channel alone and in pairs incl. 3x3 effective noise, 1600 / 6400 trajectories each; every trajectory's values in physical range; every (component, time) mean within the confidence radius of the model (family-wise 1e-9).",
+        text="16 (quick) / 64 (thorough) seeded cases covering every Lindblad channel alone and in pairs incl. 3x3 effective noise, 1600 / 6400 trajectories each; every trajectory's values in physical range; every (component, time) mean within the confidence radius of the model (family-wise 1e-9); the norm of every state handed to an observable is checked; one case in three delivers the noise model through the device (prefer_device_noise_model) with a decoy in the config.",
         note="bias allowance 1e-2 for the solver's deterministic error; collapse operators of the model written from Pulser's definitions; one open known finding (F9)",
     ),
     "C21": dict(
         level="exploration",
         technique="deterministic simulation: the executed step calendar (read from the per-step `statistics` record and from step/trajectory counters) of every solver, incl. re-entered steps and crash+resume, against an exact-rational reference calendar",
         design="7.5",
-        text="Executed step boundaries strictly increasing from 0 to the duration, containing every multiple of dt and every requested time and nothing else; one solver step per interval; n_trajectories simulations per run. Weakest fit of the family: the calendar itself is a pure function, its execution is not.",
+        text="Executed step boundaries strictly increasing from 0 to the duration, containing every multiple of dt and every requested time and nothing else; one solver step per interval; n_trajectories simulations per run; dt values that divide the duration only up to rounding, fractional dt, microsecond-long Lindblad runs, XY sequences. Weakest fit of the family: the calendar itself is a pure function, its execution is not.",
         note="calendar points closer than 1e-10 (relative) count as one; state-preparation errors excluded from the workload (C25's subject)",
     ),
     "C34": dict(
@@ -85,23 +85,23 @@ CLAIMED = {
     ),
     "C27": dict(
         level="fault_enumeration",
-        technique="deterministic simulation: file-system interception points, crash before/after/inside (torn prefix) every operation of every autosave, injected ENOSPC/EIO/EACCES, resume from each crash world",
+        technique="deterministic simulation: file-system interception points at the kernel-level writes under CPython's own buffering, crash before/after/inside (torn prefix) every operation of every autosave, injected ENOSPC/EIO/EACCES and KeyboardInterrupt, write-buffer size as a per-run knob, resume from each crash world",
         design="7.2",
-        text="Within each seeded scenario every file-system operation of every autosave is a crash point (before/after, torn prefixes of every write, error returns); the disk state left behind must hold a loadable file under the advertised name (all worlds) and resuming from it must reproduce the reference (all distinct states in the thorough tier).",
+        text="Within each seeded scenario every file-system operation of every autosave is a crash point (before/after, torn prefixes of every write, error returns); the disk state left behind must hold a loadable file under the advertised name (all worlds) and resuming from it must reproduce the reference (all distinct states in the thorough tier). The SUT writes through CPython's real BufferedWriter onto an intercepted raw file (buffer size 512 B .. 1 MiB per run): bytes still in the user-space buffer are not in a crash world. Killed-with-unwinding faults (error returns, KeyboardInterrupt before/after an operation) are judged on the directory the unwound process leaves.",
         note="process-crash model (directory contents survive), kernel POSIX semantics on tmpfs, no fsync/power-loss model because the property does not ask for it",
     ),
     "C19": dict(
         level="exploration",
         technique="deterministic simulation of the get_next_abscissa/provide_ordinate protocol against a seeded adversarial environment (the function being searched), history oracle with a bracket model, bounded liveness",
         design="7.7",
-        text="Seeded search over dialogues between the root finder and an adversary that owns the function (discontinuous, wildly scaled, epsilon-straddling, exact zeros, adaptive keep-larger-half); every abscissa inside the bracket, termination within 2(N+2)^2+10 evaluations, result at an evaluated sign change, one-at-a-time dialogue == find_root_brents.",
+        text="Seeded search over dialogues between the root finder and an adversary that owns the function (discontinuous, wildly scaled, epsilon-straddling, exact zeros, adaptive keep-larger-half, real functions with a late steep crossing, one-step lookahead on a copy of the finder); every abscissa inside the bracket, termination within 2(N+2)^2+10 evaluations, result at an evaluated sign change, one-at-a-time dialogue == find_root_brents.",
         note="tolerance >= 4 ulp; the environment is a function (memoised); finite ordinates",
     ),
     "C18": dict(
         level="exploration",
         technique="deterministic simulation of the jump-stepping state machine: traced MPSBackend.run() with real numerics (seeded RNG, buggified thresholds) and with a stubbed evolution whose squared norm is answered by a seeded adversary; invariants over the event history, bounded liveness",
         design="7.6",
-        text="Invariants I1-I7 (steps once and in order, times inside the step, jumps at an evaluated crossing within 1 ns, no step completed below threshold, post-jump state, observables once per due time at step boundaries, bounded number of sweeps per search / per run) checked over every traced run.",
+        text="Invariants I1-I7 (steps once and in order, times inside the step, jumps at an evaluated crossing within 1 ns, no step completed below threshold, post-jump state, observables once per due time at step boundaries, bounded number of sweeps per search / per run) checked over every traced run; 30 % of the runs are crash+resume histories (autosave after every unit of work, crash after a chosen autosave - preferably one written during an active jump search -, resume, possibly twice) judged on the concatenated trace; dark atoms in 20 % of the real-numerics runs.",
         note="white-box trace on sweep_complete/timestep_complete/do_random_quantum_jump/fill_results/set_jump_threshold; stub mode replaces _evolve and MPS.norm",
     ),
 }
@@ -131,7 +131,7 @@ def main() -> int:
         "setup_cmd": "./check --selfcheck-imports",
         "hooks": {
             "guard": "PASQAL_IO_EMULATORS_VERIF",
-            "enable": "no hook exists in /repo: every seam (clock, file system, uuid, RNG, qubit order, trace) is installed from the harness by rebinding names / wrapping methods for the duration of a simulated run; the checks import the working tree of /repo directly",
+            "enable": "no hook exists in /repo: every seam (clock, file system incl. write buffering, uuid, RNG, resource usage, qubit order, trace) is installed from the harness by rebinding names / wrapping methods for the duration of a simulated run; the checks import the working tree of /repo directly",
             "baseline_off_cmd": "cd /repo && /venv/bin/python -m pytest -ra -q -p no:cacheprovider --timeout=900 --continue-on-collection-errors",
             "source_commits": [],
             "add_only": True,
